@@ -24,7 +24,7 @@ PLAIN_PY = '/venv/bin/python' if os.path.exists('/venv/bin/python') else sys.exe
 
 TIERS = {
     'quick': dict(conc_cap=64, deadline_s=240, chunk_paths=120, chunk_s=8, wit_per_task=6, max_decisions=4000, solver_timeout_ms=20000),
-    'thorough': dict(conc_cap=512, deadline_s=2400, chunk_paths=400, chunk_s=30, wit_per_task=10, max_decisions=20000, solver_timeout_ms=60000),
+    'thorough': dict(conc_cap=512, deadline_s=2400, chunk_paths=400, chunk_s=30, wit_per_task=10, max_decisions=20000, solver_timeout_ms=60000, fresh_rlimit=150000000),
 }
 
 # ------------------------------------------------------------------------------
@@ -64,9 +64,11 @@ def _run_task(task):
     cfg = task['cfg']
     tp = task['tier_params']
     core.SOLVER_TIMEOUT_MS = tp['solver_timeout_ms']
+    core.FRESH_RLIMIT = tp.get('fresh_rlimit', 30000000)
     ex = core.Explorer()
     ex.conc_cap = task.get('conc_cap') or tp['conc_cap']
     ex.max_decisions = tp['max_decisions']
+    ex.path_budget_s = tp.get('path_s', 60)
     core.set_explorer(ex)
     ex.worklist = [list(map(tuple_dec, p)) for p in task['prefixes']]
     res = {
@@ -267,9 +269,14 @@ def decide(pid, tier, jobs, repo, seed, only=None, verbose=False):
                 for fut in pending:
                     fut.cancel()
                 queue = []
-                # let running chunks finish (bounded by chunk_s)
-                wait(list(pending), timeout=tp['chunk_s'] * 3)
+                # let running chunks finish (bounded by chunk_s), then stop the workers for good
+                wait(list(pending), timeout=tp['chunk_s'] * 2)
                 pending = {}
+                for proc in list(getattr(pool, '_processes', {}).values()):
+                    try:
+                        proc.terminate()
+                    except Exception:
+                        pass
                 break
     explore_s = time.time() - t_start
 
